@@ -92,6 +92,12 @@ func toNumber(v any) any {
 		uint:
 		return v
 	case string:
+		// Only the JSON number grammar is a number: UnmarshalJSON also
+		// accepts null, a leading + and a bare leading or trailing point.
+		if len(v) == 0 || v[0] != '-' && (v[0] < '0' || v[0] > '9') || !json.Valid([]byte(v)) {
+			return nil
+		}
+
 		var d decimal128.Decimal
 		if err := d.UnmarshalJSON([]byte(v)); err != nil {
 			return nil
